@@ -205,7 +205,7 @@ fn op_body(cfg: Cfg, op: &'static str, res: &mut CaseResult) -> Option<()> {
                     res.outcome = "not-applicable".into();
                     return Some(());
                 }
-                let built = build_cached::<P>(&cfg, wit).unwrap();
+                let built = build_cached::<P>(&cfg, wit).honest();
                 let mut rng = HRng::chacha(5);
                 allocmon::arm();
                 let mut t = CTX_A.transcript();
@@ -222,7 +222,7 @@ fn op_body(cfg: Cfg, op: &'static str, res: &mut CaseResult) -> Option<()> {
             },
             "prove-refused" => {
                 // each early-refusal path of the prover
-                let built = build_cached::<P>(&cfg, wit).unwrap();
+                let built = build_cached::<P>(&cfg, wit).honest();
                 let mut variants: Vec<(&str, Wit, Vec<Option<u64>>)> = Vec::new();
                 let mut w = wit.clone();
                 w.blindings[0][0] += Scalar::ONE;
@@ -257,7 +257,7 @@ fn op_body(cfg: Cfg, op: &'static str, res: &mut CaseResult) -> Option<()> {
                     res.outcome = "not-applicable".into();
                     return Some(());
                 }
-                let built = build_cached::<P>(&cfg, wit).unwrap();
+                let built = build_cached::<P>(&cfg, wit).honest();
                 let proof = match lib_prove(&built, &CTX_A, &mut HRng::chacha(7)) {
                     Ok(p) => p,
                     Err(_) => {
@@ -284,11 +284,11 @@ fn op_body(cfg: Cfg, op: &'static str, res: &mut CaseResult) -> Option<()> {
                     res.outcome = "not-applicable".into();
                     return Some(());
                 }
-                let built = build_cached::<P>(&cfg, wit).unwrap();
-                let proof = lib_prove(&built, &CTX_A, &mut HRng::chacha(7)).unwrap();
+                let built = build_cached::<P>(&cfg, wit).honest();
+                let proof = lib_prove(&built, &CTX_A, &mut HRng::chacha(7)).honest();
                 let comp_wit = Wit::default_for(&cfg);
-                let comp = build_cached::<P>(&cfg, &comp_wit).unwrap();
-                let comp_proof = lib_prove(&comp, &CTX_A, &mut HRng::chacha(8)).unwrap();
+                let comp = build_cached::<P>(&cfg, &comp_wit).honest();
+                let comp_proof = lib_prove(&comp, &CTX_A, &mut HRng::chacha(8)).honest();
                 let mut variants: Vec<(&str, Vec<RangeStatement<P>>, Vec<tari_bulletproofs_plus::range_proof::RangeProof<P>>, Vec<Ctx>)> = Vec::new();
                 variants.push((
                     "second-member-fails-final-check",
@@ -352,10 +352,19 @@ fn op_body(cfg: Cfg, op: &'static str, res: &mut CaseResult) -> Option<()> {
                 let handle = std::thread::spawn(move || {
                     allocmon::hygiene(true);
                     allocmon::set_patterns(&patterns);
-                    let built = build::<P>(&cfg, &wit2).unwrap();
+                    let built = match build::<P>(&cfg, &wit2) {
+                        Ok(b) => b,
+                        Err(_) => return (h2, f2),
+                    };
                     allocmon::set_sinks(std::sync::Arc::as_ptr(&h2), std::sync::Arc::as_ptr(&f2));
                     allocmon::arm();
-                    let proof = lib_prove(&built, &CTX_A, &mut HRng::chacha(7)).unwrap();
+                    let proof = match lib_prove(&built, &CTX_A, &mut HRng::chacha(7)) {
+                        Ok(p) => p,
+                        Err(_) => {
+                            allocmon::disarm();
+                            return (h2, f2);
+                        },
+                    };
                     let mut ts = vec![CTX_A.transcript()];
                     let r = P::verify(&mut ts, std::slice::from_ref(&built.statement), std::slice::from_ref(&proof), VerifyAction::RecoverOnly);
                     drop(r);
